@@ -28,6 +28,7 @@ import (
 // C13 — hostile / unsupported server content cannot crash or wedge the client.
 
 type c13Case struct {
+	Bare bool `json:"bare,omitempty"`
 	Name  string
 	Site  *origin.Site
 	Entry string
@@ -195,7 +196,7 @@ func c13Cases(seed int64, tier string) []*c13Case {
 		n++
 		entry := build(site, base)
 		endless := name == "playlist/ll-same-hint-forever" || name == "playlist/ll-parts-always-ready" || name == "playlist/fifty-thousand-segments"
-		cases = append(cases, &c13Case{Name: name, Site: site, Entry: entry, Endless: endless})
+		cases = append(cases, &c13Case{Name: name, Site: site, Entry: entry, Endless: endless, Bare: n%4 == 1})
 	}
 	single := func(name string, init []byte, segs [][]byte) {
 		add(name, func(site *origin.Site, base string) string {
@@ -448,10 +449,19 @@ func c13Cases(seed int64, tier string) []*c13Case {
 
 	// G. MPEG-TS
 	tsSingle := func(name string, segs [][]byte) {
-		add(name, func(site *origin.Site, base string) string {
-			vodFMP4(site, base+"s.m3u8", nil, segs, "t")
-			return base + "s.m3u8"
-		})
+		// twice: once observed through every callback, once with a client that sets none of the
+		// optional ones (decode errors then go to the default installed by Start)
+		for _, bare := range []bool{false, true} {
+			nm := name
+			if bare {
+				nm += "+bare-client"
+			}
+			add(nm, func(site *origin.Site, base string) string {
+				vodFMP4(site, base+"s.m3u8", nil, segs, "t")
+				return base + "s.m3u8"
+			})
+			cases[len(cases)-1].Bare = bare
+		}
 	}
 	tsSingle("ts/good", tsSegs)
 	tsSingle("ts/garbage", [][]byte{bytes.Repeat([]byte{0x47, 0x1f, 0xff, 0x10}, 47*4)})
@@ -707,7 +717,8 @@ type c13Out struct {
 func runC13Case(c *c13Case) *c13Out {
 	out := &c13Out{Name: c.Name}
 	srv := &origin.Server{H: c.Site.Handler()}
-	run := clirun.New(c.Entry, srv.Client())
+	// every fourth case with a client that sets no optional callback (the defaults of Start run)
+	run := clirun.NewOpts(c.Entry, srv.Client(), c.Bare)
 	if err := run.C.Start(); err != nil {
 		out.Wait = "start-error: " + err.Error()
 		out.Self = true
